@@ -185,6 +185,24 @@ func init() {
 		{Kind: "calls", File: "v2/pkg/engine/postprocess/merge_fields.go", Func: "mergeFields.fieldsCanMerge", Name: "fieldsCanMerge", Match: dm},
 		{Kind: "conds", File: "v2/pkg/astvalidation/operation_rule_defer_stream_unique_labels.go", Func: "deferStreamLabelsVisitor.EnterDirective", Name: "uniqueLabelConds"},
 	}
+	// C14: the decision cache, the field check in the pre-walk, fetch pruning and the coordinate collector
+	fa := "v2/pkg/engine/resolve/field_authorization.go"
+	am := []string{"if", "return", "for", "a.*", "l.*", "r.*", "c.*", "append", "fmt.Errorf", "authorizationDecisionID", "strings.*", "slices.*", "sort.*"}
+	specs["C14"] = []item{
+		{Kind: "calls", File: "v2/pkg/engine/resolve/loader.go", Func: "Loader.isFetchAuthorizedFromCache", Name: "isFetchAuthorizedFromCache", Match: am},
+		{Kind: "calls", File: "v2/pkg/engine/resolve/loader.go", Func: "Loader.isFetchAuthorized", Name: "isFetchAuthorized", Match: am},
+		{Kind: "calls", File: "v2/pkg/engine/resolve/loader.go", Func: "Loader.validatePreFetch", Name: "validatePreFetch", Match: am},
+		{Kind: "calls", File: "v2/pkg/engine/resolve/resolvable.go", Func: "Resolvable.authorizeField", Name: "authorizeField", Match: am},
+		{Kind: "calls", File: "v2/pkg/engine/resolve/resolvable.go", Func: "Resolvable.fieldAuthorizationCoordinate", Name: "fieldAuthorizationCoordinate", Match: am},
+		{Kind: "calls", File: fa, Func: "FieldAuthorization.decide", Name: "authDecide", Match: am},
+		{Kind: "calls", File: fa, Func: "FieldAuthorization.authorizePreFetch", Name: "authorizePreFetch", Match: am},
+		{Kind: "calls", File: fa, Func: "authorizationDecisionID", Name: "decisionID", Match: []string{"return", "xxhash.*"}},
+		{Kind: "calls", File: "v2/pkg/engine/postprocess/collect_authorization_coordinates.go", Func: "collectAuthorizationCoordinates.Process", Name: "collectProcess", Match: am},
+		{Kind: "calls", File: "v2/pkg/engine/postprocess/collect_authorization_coordinates.go", Func: "collectAuthorizationCoordinates.collectNode", Name: "collectNode", Match: am},
+		{Kind: "calls", File: "v2/pkg/engine/postprocess/collect_authorization_coordinates.go", Func: "collectAuthorizationCoordinates.collectFetchItem", Name: "collectFetchItem", Match: am},
+		{Kind: "calls", File: "v2/pkg/engine/plan/path_builder_visitor.go", Func: "pathBuilderVisitor.addRootField", Name: "addRootField", Match: am},
+		{Kind: "calls", File: "v2/pkg/engine/plan/path_builder_visitor.go", Func: "pathBuilderVisitor.fieldIsChildNode", Name: "fieldIsChildNode", Match: am},
+	}
 	// C15: the literal → JSON converter and the block string value
 	av := "v2/pkg/ast/ast_value.go"
 	asv := "v2/pkg/ast/ast_val_string_value.go"
